@@ -491,7 +491,7 @@ Proof.
   destruct (written_before_ack_l fx progs sched Hs a Ha Hr Hid) as [_ Hn]. apply Hn. exact Hf.
 Qed.
 
-(* ------------------------------------------------------------------ the code as it is: refutation *)
+(* ------------------------------------------------------------------ the protocol before /repo 77fabcc (fx = false): refutation *)
 Definition c_plain : op := Commit false None.
 Definition c_nopayload : op := Commit true None.
 
